@@ -17,6 +17,7 @@ pub mod c08;
 pub mod c09;
 pub mod c12;
 pub mod c13;
+pub mod c14;
 pub mod c15;
 pub mod c16;
 pub mod c18;
@@ -37,6 +38,7 @@ pub fn check(prop: &str, tier: Tier) -> i32 {
 		"C09" => c09::check(tier),
 		"C12" => c12::check(tier),
 		"C13" => c13::check(tier),
+		"C14" => c14::check(tier),
 		"C15" => c15::check(tier),
 		"C16" => c16::check(tier),
 		"C18" => c18::check(tier),
@@ -72,6 +74,7 @@ pub fn replay(prop: &str, file: &str) -> i32 {
 		"C09" => c09::replay(&r),
 		"C12" => c12::replay(&r),
 		"C13" => c13::replay(&r),
+		"C14" => c14::replay(&r),
 		"C15" => c15::replay(&r),
 		"C16" => c16::replay(&r),
 		"C18" => c18::replay(&r),
